@@ -2,28 +2,149 @@
 
 _COMMON_NOTE = ("Trusted: CPython's ast parser; documented semantics of NumPy / itertools / functools / multiprocessing / os. "
                 "Rules bind to the package's public API and registry names; a vanished anchor or an idiom outside the recognised "
-                "family is reported as ANALYSIS-ERROR (exit 2), never as a pass. ")
+                "family is reported as ANALYSIS-ERROR (exit 2), never as a pass. Decides structural necessary conditions only - ")
+
+_THOROUGH = " Thorough tier additionally re-analyses AST-computed breaking variants (must fire) and benign twins (must stay silent) of the current tree."
+
+
+def _t(level, design, not_covered, technique):
+    return {"level": level + _THOROUGH, "design_ref": design, "note": _COMMON_NOTE + "NOT covered: " + not_covered, "technique": technique}
+
 
 TEXTS = {
-    "C19": {
-        "level": "Static path/dataflow rules over every site that writes, loads or rebuilds a saved result: skip-if-present guard "
-                 "dominates all effects (W1), the serialised object is the loaded mapping plus exactly the new key (W2), writer and "
-                 "reader of Output agree on keys, columns and dataclass fields (W3), the four commands store positions 0/1 of what they "
-                 "computed (W4), written content is installed (W5), saver registry and dispatcher conventions (REG-V). These hold for "
-                 "every sequence of saves because every execution follows the analysed text.",
-        "design_ref": "DESIGN.md section 4, C19",
-        "note": _COMMON_NOTE + "Not covered: exact float/NaN round-trip through the json module, metadata stringification.",
-        "technique": "static analysis: ast dataflow (provenance terms), guard-dominance, writer/reader key agreement",
-    },
-    "C20": {
-        "level": "Static typestate/path rule on every function reachable from SAVERS['data.json'] that touches the destination path: "
-                 "never written in place (A1), new content to a sibling temporary (A2), atomic replace after close on every writing path "
-                 "(A3), destination never unlinked (A4). With A1-A4 every interruption point leaves the old or the complete new file; "
-                 "this is the property itself modulo atomicity of rename(2).",
-        "design_ref": "DESIGN.md section 4, C20",
-        "note": _COMMON_NOTE + "Trusted: os.replace/rename(2) atomic on one file system; process death, not power loss (no fsync required).",
-        "technique": "static analysis: file-effect typestate over the saver's call closure (open modes, temp derivation, replace ordering)",
-    },
+    "C01": _t("Abstract interpretation of both superadditive bound computers in a coalition-class domain (EMPTY/SELF/PSUB/PSUPER/OTHER with knowledge "
+              "filters), relation codes derived from the table writer: write discipline (only unknown rows, only the loop variable), coverage of every "
+              "unknown row for both bounds, size order, reads of final entries only, LB phase before UB phase, soundness shape of both recurrences "
+              "(lower-bound columns, complement of the same split, known supersets, subtraction), completeness of the enumeration helpers, column "
+              "discipline of the game accessors. Holds for every game, knowledge set and history because every execution follows the analysed text.",
+              "DESIGN.md section 4, C01",
+              "the theorem 'recurrence => every superadditive completion lies in [lower, upper]' (paper argument, Appendix C), float rounding, the precondition that known values come from a superadditive game.",
+              "static analysis: abstract interpretation over ast (coalition-class domain), write-schedule obligations"),
+    "C02": _t("Same abstract interpretation; decides the closed forms the statement quotes: lower = MAX over exactly all proper non-empty sub-coalitions "
+              "(no knowledge filter, no slice), upper = MIN over exactly all known proper supersets, processed by increasing size; enumeration helpers "
+              "complete by construction in both representations (powerset ranges, bit-set algebra of the id masks).",
+              "DESIGN.md section 4, C02",
+              "attainment of the extremes by an actual superadditive completion (polytope/LP fact), equality with an independent optimum.",
+              "static analysis: abstract interpretation (candidate-set exactness, MAX/MIN), enumeration-shape rules"),
+    "C03": _t("Sibling equality: after normalisation the write schedules (loop set, order, column, value term) of 'superadditive' and "
+              "'superadditive_cached' are equal term for term - with exact max/min and identical binary float operations that implies bit-identical "
+              "bounds, decided completely for the pair; cache hygiene of the memoised structure (pure, keyed by n, every call site passes "
+              "game.number_of_players, no caller mutates a returned array or view); relation-table agreement; registry/CLI selection.",
+              "DESIGN.md section 4, C03",
+              "exactness of NumPy reductions; differing preconditions (the reference asserts known singletons) are outside 'on which both are defined'.",
+              "static analysis: term-equality of abstract write schedules, effect analysis of cache callers"),
+    "C04": _t("Abstract interpretation of the approximate superadditive-monotone computer and its four registry bindings: phase guard decided by "
+              "constant folding on the repetition counter (first phase strict sub-splits, later phases include the row itself), monotone closure "
+              "(MAX over supersets and self, after the split loop), upper = MIN2(superadditive upper, MIN of known sub-coalition values, both "
+              "known-filtered), registry binds repetitions=i for sam_apx_i, loop range(repetitions + 1).",
+              "DESIGN.md section 4, C04",
+              "soundness of the approximation for every SAM game and repetition count (monotonicity argument over the iteration), numeric monotonicity of lower bounds along inclusion.",
+              "static analysis: abstract interpretation with phase splitting, registry/partial resolution"),
+    "C05": _t("Dataflow rules on MaxGainGame and compute_exploitability: upper bound selected exactly for coalitions containing the player in both "
+              "accessors (sibling agreement, polarity via decomposition into (column, mask) products), each Shapley term evaluated for the player of the "
+              "same max-gain game, all players, minus v(N); plus the Shapley rules of C06.",
+              "DESIGN.md section 4, C05",
+              "the algebraic identity with the binomially weighted gap and the domination statement (paper algebra), float rounding.",
+              "static analysis: provenance-term pattern rules, sibling agreement"),
+    "C06": _t("Rules on the Shapley implementation: coefficient generator = factorial(s)*factorial(n-s-1) compared as integer linear forms over range(n); "
+              "both entry points pass the same coefficient table and factorial(n); coefficients indexed by the sizes of the coalitions WITHOUT the player; "
+              "with-list = without-list | singleton elementwise; summand coef*(with - without) with zip positions matched to lambda parameters; domain = "
+              "all coalitions excluding the player.",
+              "DESIGN.md section 4, C06",
+              "equality with the average over n! orderings (combinatorial identity behind the weights), efficiency/linearity as numeric facts; a re-design outside the idiom family is reported UNDECIDED.",
+              "static analysis: linear-form normalisation, positional dataflow through zip/lambda"),
+    "C07": _t("Knowledge-polarity analysis derived from the bound schedules of all six registered computers (knowledge enters only as the UNKNOWN target "
+              "filter and positively inside MIN reductions; MAX for lower, MIN for upper); gap registry (names -> functions, partials, ord = 1/2/inf), "
+              "lp_norm = norm of (upper - lower); gap polarity of exploitability via the C05/C06 rules.",
+              "DESIGN.md section 4, C07",
+              "the monotonicity itself (theorem about max/min over growing candidate sets), non-negativity and the zero at full information as numeric facts.",
+              "static analysis: polarity analysis over abstract schedules, registry resolution"),
+    "C08": _t("For all six registered computers: every unknown row's both bounds rewritten on every compute, reads only of entries final in this compute, "
+              "phase order, no hidden state (no module-level mutable state, only protocol attributes of the game); full re-initialisation in "
+              "set_known_values; unset zeroes the row; unstep is the statement-wise inverse of step.",
+              "DESIGN.md section 4, C08",
+              "exact numeric equality of restored reward/observation (follows from determinism of the recomputation, not observed).",
+              "static analysis: abstract interpretation + effect discipline + inverse pairing"),
+    "C09": _t("Typestate analysis (knowledge mutation -> DIRTY, compute_bounds -> CLEAN, interprocedural through properties and helpers) on reset/step/"
+              "unstep: no gap/reward/bound observer in DIRTY state, transitions exit CLEAN; reveal pairing (same coalition, value from the hidden full "
+              "game, info id); index-space agreement of mask/state/spaces over explorable_coalitions; reset order and aliasing (new game, normalised COPY, "
+              "paired set_known_values, counter zeroed); explorable set; reward sign; done = exactly three classified disjuncts (>=, None guard).",
+              "DESIGN.md section 4, C09",
+              "numeric content of observation/reward, non-positivity of the reward (C01+C05), that generator() really draws a new game (C10/C12).",
+              "static analysis: path-sensitive typestate over a syntax-directed CFG, provenance-term rules"),
+    "C10": _t("Registry exhaustiveness: all 72 expanded GENERATORS entries resolve to callables accepting (n, rng) with partial-bound keywords being "
+              "parameters; NumPy-integer flow: sources (Generator.integers, argmax, ...) to operands whose callee dispatches on isinstance(., int) "
+              "(sinks derived from the package), interprocedural through keyword arguments; RNG-source discipline: every draw in every reachable "
+              "generator function comes from the generator parameter or a locally seeded RNG, and the parameter is handed on (3 documented exceptions).",
+              "DESIGN.md section 4, C10",
+              "superadditivity / monotonicity of the produced values, v(empty) = 0, float64 dtype (numeric; the in-code asserts are runtime checks), behaviour of NetworkX generators at small n.",
+              "static analysis: registry constant-folding, taint flow (source/sanitiser/sink), effect discipline"),
+    "C11": _t("Order-preserving pool API at every Pool site; worker purity (no module-level mutable state in the worker's call closure) and typestate "
+              "(re-initialise, recompute, then gap); enumeration = combinations of the materialised unknown coalitions for sizes 0..k inclusive; paired "
+              "get_values/set_known_values arguments at all 5 sites; best-states selection pairs column i with sequence i and keeps the smaller mean; "
+              "meta-game works on a copy with paired reset; path-sensitive single-use-iterator reuse check over the whole package.",
+              "DESIGN.md section 4, C11",
+              "that the reported gaps are numerically optimal, non-increase of the curve (C07), behaviour of multiprocessing itself.",
+              "static analysis: call-closure effect analysis, typestate, enumeration-shape rules, path-sensitive lazy-iterator lint"),
+    "C12": _t("Recording rules on eval_one (reset first, row 0, action before step, positions 1 and 4 of the step result, info key agreement with the "
+              "env) and evaluate (fresh env per task, tuple order, stack+transpose, ordered pool API); RNG-ownership analysis across the task boundary: "
+              "RNG-holding attributes are found by constructor, draws on them located, and any draw reachable from the worker through a bound method or "
+              "object shared by all tasks - or from a process-global RNG - is a violation; per-env child streams created in the factory are accepted.",
+              "DESIGN.md section 4, C12",
+              "numeric equality of the matrices with a replay; statistical independence of the hidden games. Open known finding: RandomSolver._generator shared across pool tasks.",
+              "static analysis: positional dataflow, RNG-ownership (escape/sharing) analysis over bound methods and partials"),
+    "C13": _t("Path rule: every gym.step(a) in a solver is undone by gym.unstep(a) with the same argument on every path (flow with helper summaries); "
+              "read-only use of the env; returned action provably drawn from the mask-filtered list; choice rules (max unless worst then min, first match in "
+              "ascending order; largest = max size, first match; look-ahead value = position 1 of the step result); expected greedy: argmin of the mean over "
+              "the games axis, append AND remove before rebuilding candidates, curve row = len(sequence); registry constructibility.",
+              "DESIGN.md section 4, C13",
+              "that the maximal immediate reward is numerically what is returned; comparison with the exhaustive optimum.",
+              "static analysis: acquire/release pairing on a CFG walk, membership provenance, pattern rules"),
+    "C14": _t("Index-space typing of regret.py: spaces COAL/PID/MID/RANK/RM are derived from allocation size expressions and from value provenance "
+              "(rank->id table values are ids, Coalition(id).players are player ids, ...); obligation: allocated space contains every index space used "
+              "on the array (2 documented exceptions listed in the evidence); save/load key, file, constructor-order and restored-state agreement; "
+              "plus-clipping after the update; fallback support zeroing in both strategy functions; ordering of coalition sets.",
+              "DESIGN.md section 4, C14",
+              "distribution/support/orthogonality invariants after arbitrary iterations (numeric), float32 accumulation.",
+              "static analysis: dimension (index-space) type inference, writer/reader agreement"),
+    "C15": _t("Cancellation-guarded division: a divisor that is (or is read back from a game into which the function stored) a difference of game values "
+              "must be guarded by a tolerance test, not an exact-zero test; norm-info captured before mutation; inverse agreement (subtract singletons then "
+              "divide vs multiply then add, tuple positions); view contract of the bound getters the in-place division relies on; dispatch over both game kinds.",
+              "DESIGN.md section 4, C15",
+              "the [0,1] range, superadditivity of the result, round-trip error bounds (numeric).",
+              "static analysis: value-provenance classification of divisors and guards, inverse pairing"),
+    "C16": _t("Rules on ICG_Gym_Linear: every observation/mask leaving it is the size-aggregation (bincount with weights) of the inner one; the inner action "
+              "is drawn from candidates = (size == requested) AND inner mask; reward/done/truncated/info passed through; sizes aligned with the inner "
+              "explorable list.",
+              "DESIGN.md section 4, C16",
+              "length-n of the aggregated vector (numeric property of bincount), uniformity of the tie-break.",
+              "static analysis: provenance-term pattern rules"),
+    "C17": _t("Rules over every method of IncompleteCooperativeGame: column discipline derived from the scalar accessors (distinct, in width, every accessor "
+              "its column, set_value writes value/value/1), guarded getters, masked bulk setters (not-known conjunct, right column), copy/negation "
+              "(fresh table, reads from self, swap, knowledge untouched), reset order, reveal/unreveal preconditions; package-wide who-may-write _values and "
+              "view-escape rule (derived view getters, in-place mutation sites, 2 allow-listed symbols).",
+              "DESIGN.md section 4, C17",
+              "the full operation-sequence semantics (a model of NumPy indexing would be needed), NaN vs None representation.",
+              "static analysis: per-method store/read column typing, dominance of guards, alias/view-escape analysis"),
+    "C18": _t("Bit-set algebra: the bitwise expression of every Coalition operator (and of the id-array sub-coalition mask) is normalised to its truth "
+              "table over set-valued atoms and compared with the set-theoretic specification - this decides the operator for all inputs and is insensitive "
+              "to behaviour-preserving rewrites; completeness-by-construction of sub/super enumerations in both representations; predicates iterate all "
+              "coalitions and sub-coalitions, fail only on the failed comparison (orientation, documented tolerance), is_sam = conjunction.",
+              "DESIGN.md section 4, C18",
+              "agreement of object and id enumerations as ordered sequences for every n (only the sets they enumerate are decided), popcount/bit-scan loops beyond their shape.",
+              "static analysis: truth-table normal form of bitwise expressions, enumeration-shape and predicate-shape rules"),
+    "C19": _t("Static path/dataflow rules over every site that writes, loads or rebuilds a saved result: skip-if-present guard dominates all effects, "
+              "the serialised object is the loaded mapping plus exactly the new key, writer and reader of Output agree on keys, columns and dataclass fields "
+              "(tolist round trip), the four commands store positions 0/1 of what they computed, written content is installed, saver registry and dispatcher.",
+              "DESIGN.md section 4, C19",
+              "exact float/NaN round-trip through the json module, metadata stringification.",
+              "static analysis: guard dominance, writer/reader key agreement, dependency closure of Output arguments"),
+    "C20": _t("File-effect typestate over the call closure of SAVERS['data.json']: the destination is never opened for writing / truncated / copied onto / "
+              "unlinked; new content goes to a sibling temporary derived from the destination; the atomic replace comes after the temporary file is closed. "
+              "With these every interruption point leaves the old or the complete new file - this is the property itself modulo rename(2).",
+              "DESIGN.md section 4, C20",
+              "atomicity of os.replace/rename(2) on one file system (trusted); power loss (no fsync required: the property speaks of process death).",
+              "static analysis: file-effect typestate (open modes, temp derivation, replace ordering)"),
 }
 
 NOT_APPLICABLE: dict[str, str] = {}
